@@ -185,3 +185,46 @@ def cmp_oriented(e: ast.AST, is_left):
     if is_left(r) and op in _FLIP:
         return r, _FLIP[op], l
     return None
+
+
+def cli_args_name(fn_node: ast.AST) -> str:
+    """The local name cli.main binds the parsed command line to (`args = parser.parse_args(...)`), whatever it is called."""
+    for n in ast.walk(fn_node):
+        if isinstance(n, ast.Assign) and isinstance(n.value, ast.Call) and isinstance(n.value.func, ast.Attribute) and n.value.func.attr in ("parse_args", "parse_known_args") and len(n.targets) == 1 and isinstance(n.targets[0], ast.Name):
+            return n.targets[0].id
+    return "args"
+
+
+def canon_func(f, loopvar: str = None, params: dict = None, loop_index: int = 0, rename: dict = None):
+    """A copy of FuncInfo `f` whose AST has the target of its `loop_index`-th top-level `for` renamed to `loopvar` and
+    the parameters at the given positions renamed (params = {position: canonical name}).  Rules written against the
+    canonical spelling thereby hold for any alpha-renaming of those locals.  A canonical name already used for something
+    else in the function is left alone (the rule then sees the original spelling)."""
+    import copy
+    import dataclasses
+
+    node = copy.deepcopy(f.node)
+    used = {n.id for n in ast.walk(node) if isinstance(n, ast.Name)} | {a.arg for a in ast.walk(node) if isinstance(a, ast.arg)}
+    mapping = {}
+    if loopvar:
+        loops = [n for n in node.body if isinstance(n, (ast.For, ast.AsyncFor))]
+        if len(loops) > loop_index and isinstance(loops[loop_index].target, ast.Name):
+            cur = loops[loop_index].target.id
+            if cur != loopvar and loopvar not in used:
+                mapping[cur] = loopvar
+    a = node.args
+    plist = a.posonlyargs + a.args
+    for pos, want in (params or {}).items():
+        if pos < len(plist) and plist[pos].arg != want and want not in used:
+            mapping[plist[pos].arg] = want
+    for cur, want in (rename or {}).items():
+        if cur != want and want not in used:
+            mapping[cur] = want
+    if not mapping:
+        return f
+    for n in ast.walk(node):
+        if isinstance(n, ast.Name) and n.id in mapping:
+            n.id = mapping[n.id]
+        elif isinstance(n, ast.arg) and n.arg in mapping:
+            n.arg = mapping[n.arg]
+    return dataclasses.replace(f, node=node)
